@@ -381,6 +381,7 @@ class Monitor:
         self.cfg = cfg
         self.file = file            # what is on disk, as the harness wrote / read it
         self.stored = file          # what the implementation (or the generator) stored before any damage
+        self.tampered = True        # the file was not (only) written by close()
         self.io = b''
         self.size = 0
         self.w = 0                  # end of the most recently connected batch
@@ -390,6 +391,22 @@ class Monitor:
     def fail(self, msg):
         if self.bad is None:
             self.bad = msg
+
+    def check_fetch_window(self, what, start, io_after, size):
+        """a fetched chunk may only ever touch its own 1000-block range: nothing below it changes (a gap is filled with
+        zeros), nothing at or above start+1000 changes or appears"""
+        before = self.io
+        lo, hi = start * HS, (start + CHUNK) * HS
+        k = min(len(before), lo)
+        if io_after[:k] != before[:k] or io_after[k:lo] != bytes(max(0, min(len(io_after), lo) - k)):
+            self.fail(f'{what}: bytes below the fetched range {start} changed')
+        elif io_after[hi:] != before[hi:]:
+            n_before, n_after = max(0, len(before) - hi) // HS, max(0, len(io_after) - hi) // HS
+            self.fail(f'{what}: the reply for range {start} changed the store at or above height {start + CHUNK} '
+                      f'({n_before} -> {n_after} headers there): headers outside the checkpointed range were '
+                      f'overwritten or appeared without validation')
+        elif size > max(self.size, start + CHUNK):
+            self.fail(f'{what}: len(headers) grew to {size} beyond the fetched range')
 
     def check_checkpointed(self, buf, missing, when):
         """a checkpointed chunk counts as present only if what is stored hashes to the built-in checkpoint"""
@@ -434,6 +451,13 @@ class Monitor:
                 self.fail(f'undamaged file of {whole} headers loaded as {size}')
             if fb is not None and size < max(0, fb - 1):
                 self.fail(f'first damaged link at {fb} but only {size} headers kept')
+        # a restart without any crash or damage loads exactly what close() stored
+        if not self.tampered and self.stored is not None and not padded:
+            if io_after != self.stored:
+                n = len(self.stored) // HS
+                self.fail(f'restart without a crash: {n} headers were stored, {size} are loaded'
+                          + ('' if io_after[:len(self.stored)] == self.stored[:len(io_after)] else
+                             ' and they are not a prefix of what was stored'))
         # link-detectable damage above the start of the check: the loaded chain is a prefix of what was STORED,
         # i.e. it does not contain the damaged header itself
         if fb is not None and self.stored is not None and fb > start and not padded:
@@ -507,9 +531,13 @@ class Monitor:
         chunk = bytes.fromhex(op['chunk'])
         start = op['height'] // CHUNK * CHUNK
         cp = dict((h, x) for h, x in self.cfg['checkpoints'])
+        if start in cp:
+            self.check_fetch_window(f'fetch for height {op["height"]}', start, io_after, size)
         if io_after != self.io:
             if cp.get(start) != dsha(chunk).hex():
-                self.fail(f'chunk at {start} stored although it does not hash to the checkpoint')
+                self.fail(f'chunk at {start} stored although the reply ({len(chunk) // HS} headers'
+                          f'{" + %d bytes" % (len(chunk) % HS) if len(chunk) % HS else ""}) does not hash to the '
+                          f'checkpoint')
             elif io_after[start * HS:start * HS + len(chunk)] != chunk:
                 self.fail('stored chunk differs from the fetched one')
             self.base = max(self.base, min(size, start + CHUNK))
@@ -530,7 +558,10 @@ class Monitor:
                 self.fail(f'lookup of height {op["height"]} beyond the {self.size} stored headers succeeded')
         else:
             if io_after != self.io and cp.get(start) != dsha(chunk).hex():
-                self.fail(f'chunk at {start} stored although it does not hash to the checkpoint')
+                self.fail(f'chunk at {start} stored although the reply ({len(chunk) // HS} headers'
+                          f'{" + %d bytes" % (len(chunk) % HS) if len(chunk) % HS else ""}) does not hash to the '
+                          f'checkpoint')
+            self.check_fetch_window(f'lookup of height {op["height"]} via {op["via"]}', start, io_after, size)
             if io_after != self.io:
                 self.base = max(self.base, min(size, start + CHUNK))
                 self.w = max(self.w, self.base)
@@ -546,9 +577,17 @@ class Monitor:
 
     def on_close(self, file_after):
         if file_after[:len(self.io)] != self.io:
-            self.fail('file written by close() does not start with the chain in memory')
+            d = next((h for h in range(len(self.io) // HS + 1)
+                      if file_after[h * HS:(h + 1) * HS] != self.io[h * HS:(h + 1) * HS]), 0)
+            self.fail(f'after close() the file differs from the {len(self.io) // HS} headers in memory from height {d} on '
+                      f'(file has {len(file_after) // HS} headers): what connect() stored did not reach the disk')
+        elif file_after != self.io:
+            extra = len(file_after) - len(self.io)
+            self.fail(f'close() stored {len(self.io) // HS} headers but left {extra} stale bytes ({extra // HS} headers of '
+                      f'an abandoned tail) behind them in the file')
         self.file = file_after
-        self.stored = file_after
+        self.stored = self.io           # what was stored is the chain in memory
+        self.tampered = False
 
 
 # ------------------------------------------------------------------------------------------------
@@ -710,6 +749,7 @@ class History:
             self.mon.on_close(self.impl.get_file())
         elif k in ('setfile', 'patchfile'):
             self.mon.file = self.impl.get_file()
+            self.mon.tampered = True
             if k == 'setfile':
                 st = self.mon.file
                 if st is not None and 'undo' in op:
@@ -806,7 +846,7 @@ def gen_history(run, model, rng, length, box=None):
             j = min(j, pos)
             if j < 1:
                 continue
-            k = rng.choice([1, 1, 2, 3, max(1, pos - j - 1), pos - j + 1, pos - j + 3])
+            k = rng.choice([1, 1, 2, 3, max(1, pos - j - 1), pos - j, pos - j, pos - j + 1, pos - j + 3])
             k = max(1, k)
             fork = miner.extend(main[:j], k)
             r = h.connect(j, fork[j:])
@@ -973,8 +1013,13 @@ def gen_checkpoints(run, model, rng, two, box=None):
         h.do({'op': 'fetch', 'height': hgt, 'chunk': good[i][:-HS].hex(), 'io': False})
         h.do({'op': 'fetch', 'height': hgt, 'chunk': good[1 - i if two else 0].hex() if two else good[0][HS:].hex(),
               'io': False})
-        if rng.random() < 0.5:
-            h.do({'op': 'fetch', 'height': nchunks * CHUNK + 5, 'chunk': good[i].hex(), 'io': False})
+        h.do({'op': 'fetch', 'height': nchunks * CHUNK + 5, 'chunk': good[i].hex(), 'io': False})
+        classes = reply_classes(rng, good[i])
+        rng.shuffle(classes)
+        for name, reply in classes[:4]:
+            run.count('reply-length:' + name)
+            h.do({'op': 'fetch', 'height': hgt, 'chunk': reply.hex(), 'io': False})
+            h.do({'op': 'has_header', 'height': hgt})          # a refused reply leaves the chunk missing
         h.do({'op': 'fetch', 'height': hgt, 'chunk': good[i].hex(), 'io': False})
         h.do({'op': 'has_header', 'height': hgt})
         h.do({'op': 'fetch', 'height': hgt, 'chunk': bytes(bad).hex(), 'io': False})
@@ -1125,9 +1170,73 @@ def gen_lookups_zero_slot(run, model, rng, box=None):
     bad[rng.randrange(len(bad))] ^= 1
     h.do({'op': 'lookup', 'via': rng.choice(VIAS), 'height': CHUNK + rng.randrange(CHUNK), 'chunk': bytes(bad).hex(),
           'io': False})
+    for name, reply in rng.sample(reply_classes(rng, b''.join(upper)), 3):
+        run.count('reply-length:' + name)
+        h.do({'op': 'lookup', 'via': rng.choice(VIAS), 'height': CHUNK + rng.randrange(CHUNK), 'chunk': reply.hex(),
+              'io': False})
     h.do({'op': 'lookup', 'via': rng.choice(VIAS), 'height': CHUNK + rng.randrange(CHUNK),
           'chunk': b''.join(upper).hex(), 'io': False})
     h.do({'op': 'lookup', 'via': 'get_raw_header', 'height': rng.randrange(0, n), 'chunk': b''.join(upper).hex()})
+    return h.finish()
+
+
+def reply_classes(rng, good):
+    """server replies for a checkpointed range that contain (most of) the genuine chunk but have another length:
+    the WHOLE reply has to hash to the checkpoint, so every one of them must be refused and leave no trace"""
+    junk = lambda k: b''.join(rand_header(rng) for _ in range(k))
+    linked = lambda k: b''.join(linked_chain(rng, k + 1, first=good[-HS:])[1:])
+    return [('+1', good + junk(1)), ('+3-linked', good + linked(3)), ('+1000', good + linked(CHUNK)),
+            ('+partial', good + rng.randbytes(rng.randrange(1, HS))), ('-1', good[:-HS]), ('-3', good[:-3 * HS]),
+            ('-partial', good[:-rng.randrange(1, HS)]), ('+zeros', good + bytes(HS)),
+            ('doubled', good + good)]
+
+
+@guarded
+def gen_short_fork_restart(run, model, rng, kind, rel='shorter', box=None):
+    """connect, close, reopen, connect a valid fork at a lower height that leaves the chain SHORTER, close, reopen:
+    the loaded chain must be exactly the stored one. rel: the fork is 'shorter' than the tail it replaces, of 'equal'
+    length (the file keeps its size, every replaced byte still has to reach the disk), 'longer', or 'same' (the stored
+    headers are connected again: nothing changes). kind: 'small' (a store below the 999-header horizon, where open()
+    re-checks nothing), 'big' (1000+ headers without checkpoints), 'checkpointed' (one built-in checkpoint)"""
+    if kind == 'small':
+        cfg = easy_cfg(rng)
+        miner = Miner(rng, cfg)
+        full = miner.extend([miner.genesis()], rng.randrange(5, 12))
+        cfg = with_genesis(cfg, full)
+        miner.cfg = cfg
+        base, file0 = 0, None
+    else:
+        chain = linked_chain(rng, CHUNK + (rng.randrange(1, 6) if kind == 'big' else 0))
+        blob = b''.join(chain)
+        cfg = {'max_target': (1 << 255) - 1, 'genesis': dsha(chain[0]).hex(), 'vd': True,
+               'checkpoints': [[0, dsha(blob[:CHUNK * HS]).hex()]] if kind == 'checkpointed' else []}
+        miner = Miner(rng, cfg)
+        full = chain + miner.extend(chain[-2:], rng.randrange(6, 12))[2:]
+        base, file0 = len(chain), blob
+    run.count('short-fork-restart:%s/%s' % (kind, rel))
+    big = kind != 'small'
+    h = History(run, model, cfg, file0, 'short-fork-restart', box)
+    h.do({'op': 'open', 'io': not big})
+    h.connect(base, full[base:], io=not big)
+    h.do({'op': 'close', 'io': not big})
+    h.do({'op': 'open', 'io': not big})
+    n = len(full)
+    j = rng.randrange(base + 1, n - 2)
+    if rel == 'shorter':
+        k = rng.randrange(1, n - j - 1)           # strictly shorter than the old tail
+    elif rel == 'longer':
+        k = n - j + rng.randrange(1, 3)
+    else:
+        k = n - j                                 # same number of headers as the tail it replaces
+    fork = full if rel == 'same' else miner.extend(full[:j], k)
+    h.connect(j, fork[j:], io=not big)
+    h.do({'op': 'close', 'io': not big})
+    h.do({'op': 'open', 'io': not big})
+    more = miner.extend(fork, 2)
+    h.connect(len(fork), more[len(fork):], io=not big)
+    h.connect(n, miner.extend(full, 1)[n:], io=not big)      # the abandoned chain's continuation at its old length
+    h.do({'op': 'close', 'io': not big})
+    h.do({'op': 'open', 'io': not big})
     return h.finish()
 
 
@@ -1179,6 +1288,14 @@ def gen_checkpoint_restart(run, model, rng, variant, cut, box=None):
     bad = bytearray(good[1])
     bad[rng.randrange(len(bad))] ^= 0x10
     look(1500, bytes(bad))
+    look(1500, bytes(bad), 'get_raw_header')        # a second attempt after the refusal: still refused, still fetched
+    for k, (name, reply) in enumerate(reply_classes(rng, good[1])):
+        if k % 3 == rng.randrange(3):
+            run.count('reply-length:' + name)
+            look(CHUNK + rng.randrange(CHUNK), reply)
+    for name, reply in rng.sample(reply_classes(rng, good[0]), 2):
+        run.count('reply-length:' + name)
+        look(rng.randrange(CHUNK), reply)
     look(1500, good[1], 'get_raw_header')
     look(1999, good[1])
     look(rng.randrange(CHUNK), good[0])
@@ -1468,8 +1585,11 @@ def main(run):
         'sits at target, target+-1, inside / at the top of / just past the band that rounds to the same compact bits '
         '(PoW hash replaced for exactly those headers on both sides; one such header pre-mined with the real hash is in '
         'the corpus); two built-in checkpoints with the higher / lower / both / no chunk fetched or a lower header damaged, '
-        'every class of crash cut (misaligned in the last header, the tip, either chunk; aligned; appended junk), then '
-        'restart, has_header, lookups and re-connect of the tip. distinct = distinct '
+        'a valid fork that leaves the chain shorter / of equal length / longer (or the same headers again) followed by a clean close / reopen in stores below the 999-header '
+        'horizon, above it and with a checkpoint; every class of crash cut (misaligned in the last header, the tip, either chunk; aligned; appended junk), then '
+        'restart, has_header, lookups and re-connect of the tip; in every fetch / lookup scenario for a checkpointed range '
+        'also replies of another length (genuine chunk + 1 / 3 / 1000 headers, + a partial header, + zeros, doubled, '
+        'truncated by 1 / 3 headers or a few bytes) and a second attempt after a refusal. distinct = distinct '
         'full case (config, file, op list); non-trivial = more than one operation or a non-zero pure input.')
 
     # corpus first
@@ -1480,6 +1600,9 @@ def main(run):
             # scenario too large to store as bytes (2 x 1000 headers): regenerated from its own fixed seed
             import random as _random
             gen_checkpoint_restart(run, model, _random.Random(case['seed']), case['variant'], case['cut'])
+        elif case.get('generate') == 'checkpoints':
+            import random as _random
+            gen_checkpoints(run, model, _random.Random(case['seed']), two=case['two'])
         else:
             run_case(run, model, case)
         run.count('corpus')
@@ -1567,6 +1690,13 @@ def main(run):
         gen_big_reopen(run, model, rng, n, damage)
     for i in range(vlib.scaled(T, 2, 12)):
         gen_checkpoints(run, model, rng, two=bool(i % 2))
+
+    # ---- reorganisation to a shorter chain, then a clean restart
+    plan = [('small', 'shorter'), ('small', 'equal'), ('small', 'longer'), ('big', 'shorter'), ('big', 'equal'),
+            ('checkpointed', 'shorter'), ('checkpointed', 'equal'), ('small', 'same'), ('small', 'equal'),
+            ('checkpointed', 'longer'), ('big', 'same'), ('big', 'longer')]
+    for i in range(vlib.scaled(T, 9, 180)):
+        gen_short_fork_restart(run, model, rng, *plan[i % len(plan)])
 
     # ---- restart with checkpoints: which chunks count as present after a crash cut
     combos = [(v, c) for v in RESTART_VARIANTS for c in CUT_CLASSES]
